@@ -128,8 +128,8 @@ CHECKS = {
    technique='bounded-exhaustive enumeration of a pool of units definitions; all ordered pairs and all triples of a class-complete sub-pool judged by an exact rational reference reduction',
    text='Pool U = every units definition over references {metre, second, gram, litre, volt, dimensionless, user base units, earlier members}, prefix {none, milli, kilo, 3, -2}, '
         'exponent {1, 2, -1, 0.5, 0}, multiplier {1, 1000, 0.25}: all 600 one-child definitions, all ordered pairs of a child menu (two children, both orders), nesting depth 1 and 2, '
-        'each also imported (Importer::addModel) and reached through an imported intermediate, every built-in name as a childless object, parentless definitions (quick 2644 members / '
-        '135 reduction classes, sub-pool 497; thorough 12860 / 265, sub-pool 917). ALL ordered pairs of U (compatible, scalingFactor, equivalent; symmetry and inverse law), ALL triples of a sub-pool holding '
+        'each also imported (Importer::addModel) and reached through an imported intermediate, every built-in name as a childless object, parentless definitions one definition reaching the same resolved imported units twice (imp*imp, two imports of the same units, import plus a local or imported intermediate using it, both orders) (quick 3764 members / '
+        '146 reduction classes, sub-pool 562; thorough 15996 / 294, sub-pool 1063). ALL ordered pairs of U (compatible, scalingFactor, equivalent; symmetry and inverse law), ALL triples of a sub-pool holding '
         'every reduction class (transitivity, multiplicativity), null / dangling / parentless / unresolved arguments, child-order and import twins, and one validated two-component model '
         'per ordered pair of the sub-pool (verdict and both parts of the mismatch hint), plus one analysed model with executed generated C per equal-reduction pair of the sub-pool. Complete for the stated menus; nothing is sampled.',
    note='Trusted: the reference (exact rationals for exponents, log10 scale as a + b*log10(2), built-in units table typed from the CellML 2.0 specification), glibc log10/pow within 1e-12, '
@@ -139,7 +139,7 @@ CHECKS = {
    technique='bounded-exhaustive enumeration of component forests x connection patterns x interface strings (fixVariableInterfaces), units assignments (linkUnits) and seeded empty entities (clean) against references computed from the case specification',
    text='fixVariableInterfaces: every rooted forest on <= 4 (thorough 5) components x hub component x every ordered sequence of 1 or 2 (3 on <= 3 / 4 components) distinct targets among the other '
         'components, a component of another model, a component outside any model and a parentless variable x all 6^(k+1) interface strings from {unset, public, private, public_and_private, '
-        'none, foo}; return value, every final interface string, untouched bystanders, frame condition and the validator are judged. linkUnits: 2 layouts x all 6^4 units assignments '
+        'none, foo} (one-link structures and the hub of two-link structures on <= 3 / 4 components: a menu of 24 strings with 18 more invalid ones holding each legal value as prefix / suffix / infix); return value, every final interface string, untouched bystanders, frame condition and the validator are judged. linkUnits: 2 layouts x all 6^4 units assignments '
         '(standard, by string, own object, foreign object, missing, none), twice (idempotence), with pointer identity. clean(): every forest seeded with one or two of 14 emptiness variants in every '
         'slot, and every sequence of <= 4 (5) units over 7 kinds, compared unsorted with an independently built expected model. Complete for the stated bounds.',
    note='Trusted: the relation sibling / parent / child read off the parent vector, the documented definition of "empty" in model.h (import-only and encapsulation-id-only entities are accepted either way), '
